@@ -864,6 +864,7 @@ DEFAULT_BIAS = dict(
     select_after_drop=0.15,   # after drop_columns, a select_columns
     interior_order=0.06,      # order_rows without limit followed by more steps
     dead_project=0.2,         # after a project, drop / overwrite every aggregate it produced
+    drop_window_output=0.1,   # after a windowed extend with >= 2 ops, drop some (not all) of its outputs
     diff_keys=0.3,            # differently named join keys
     join_types=("inner", "left", "right", "full", "cross"),
     window=1.0,               # multiplier on windowed-extend weight
@@ -2206,6 +2207,19 @@ class Gen:
             if lc == "project" and r.random() < o["dead_project"]:
                 if self.step_kill_project_outputs(st):
                     return "kill_project"
+            if lc == "extend" and st.last.get("windowed") and len(st.last.get("targets", [])) >= 2 \
+                    and r.random() < o["drop_window_output"]:
+                tg = [t for t in st.last["targets"] if t in st.cols]
+                drop = self.sample(tg, 1, len(tg) - 1)
+                if drop and len(drop) < len(st.cols):
+                    if r.random() < 0.5:
+                        cols = [c for c in st.cols if c not in drop]
+                        st.push({"call": "drop_columns", "cols": drop}, cols, {c: st.ci[c] for c in cols},
+                                {"call": "drop_columns", "dropped": drop})
+                        return "drop_columns"
+                    keep = [c for c in tg if c not in drop]
+                    st.push({"call": "select_columns", "cols": keep}, keep, {c: st.ci[c] for c in keep})
+                    return "select_columns"
             if lc == "drop_columns" and r.random() < o["select_after_drop"]:
                 if self.step_select_columns(st):
                     return "select_columns"
